@@ -76,7 +76,7 @@ def tosym(s, env):
             if a is None or b is None:
                 return None
             return {'+': a + b, '-': a - b, '*': a * b, '/': a / b}[op]
-        if op == 'u-' and len(s) == 2:
+        if op in ('u-', '-') and len(s) == 2:
             a = tosym(s[1], env)
             return None if a is None else -a
         if op in ('floor', 'Eigen::floor', 'std::floor') and len(s) == 2:
@@ -167,6 +167,7 @@ def check_class(fx, R, cq):
     if origin is None or count is None:
         R.undecided('X3', cname + ':formulas', 'origin / cell-count formulas not interpretable: %s ; %s' % (origin_s, count_s))
         return
+    witness_grids(fx, R, cname, g, fi, origin, count, env, l, u, r, loc)
     # ---- X1 table and index map ------------------------------------------------------------------
     loops = [x for x in walk(g['body']) if x.get('k') == 'For']
     inner = [L for L in loops if not any(y.get('k') == 'For' for y in walk(L['b']))]
@@ -354,6 +355,102 @@ def check_class(fx, R, cq):
             'the maximal-range constructor builds the grid on [%s, %s]; for the extent [-R, R] the upper bound then has real index N - (%s), whose infimum over the ceil slack is %s: when R is an exact '
             'half-multiple of the resolution the point +R gets index N (one past the last cell) [%s]' % (lo_e, hi_e, mg[0], dup[0], cname),
             'extent [-R, R]: upper margin >= %s cells, lower index >= %s [%s]' % (dup[0], dlo[0], cname), fx.rel(sc['loc']), 'E-ALG')
+
+
+WITNESS_GRIDS = [(-1, 1, '1/10'), (2, 5, 1), ('-122/100', '127/100', '1/10'), ('-331/100', '338/100', '1/4'), ('35/100', '205/100', '1/10'), ('-53/10', '-22/10', '1/2'),
+                 ('-105/100', '105/100', '1/10'), (0, 3, '1/2'), ('126/100', '44/10', '1/4'), ('-7/3', '11/7', '1/3'), ('1/10', '9/10', '1/5'), ('-9/10', '-1/10', '1/5')]
+
+
+def _num(e):
+    """exact value of an expression of rationals with floor / ceiling / trunc"""
+    e = e.replace(lambda x: isinstance(x, sp.core.function.AppliedUndef) and str(x.func) == 'trunc', lambda x: sp.sign(x.args[0]) * sp.floor(sp.Abs(x.args[0])))
+    v = sp.nsimplify(e)
+    return v if v.is_Rational else None
+
+
+def witness_grids(fx, R, cname, g, fi, origin, count, env, l, u, r, loc):
+    """X6: the constructor's own formulas (origin, cell count, table entry) and the index map, evaluated in exact rational arithmetic on witness
+    extents (aligned and not, on either side of the origin, half-multiples): spacing of the centres, centre(n) -> n, and for sample points of the
+    extent an index inside [0, N) whose centre is within half a resolution."""
+    inst = cname + ':witness-grids'
+    env = dict(env)
+    env['this.flooredMinimalPositionAlongAxes_'] = origin
+    env['this.numberOfCellsAlongAxes_'] = count
+    st = stmts_sx(g)
+    for _ in range(2):
+        for s_ in st:
+            if s_[0] == 'decl' and s_[2] is not None:
+                init = s_[2]
+                if isinstance(init, tuple) and len(init) == 3 and init[0] == '[]' and init[2] == 'dim':
+                    init = init[1]                 # per-axis alias of a vector quantity
+                v_ = tosym(init, env)
+                if v_ is not None and s_[1] not in ('n',):
+                    env[s_[1]] = v_
+    loops = [x for x in walk(g['body']) if x.get('k') == 'For']
+    inner = [L for L in loops if not any(y.get('k') == 'For' for y in walk(L['b']))]
+    entry = None
+    nn = sp.Symbol('n', integer=True, nonnegative=True)
+    if len(inner) == 1:
+        L = inner[0]
+        init = L.get('init')
+        v = init['vars'][0] if init and init['k'] == 'Decl' and len(init['vars']) == 1 else None
+        n = v['name'] if v else 'n'
+        body = [deep_unwrap(sx(x['e'])) for x in (L['b']['s'] if L['b']['k'] == 'Compound' else [L['b']]) if x['k'] == 'Expr']
+        stores = [s_ for s_ in body if isinstance(s_, tuple) and s_[0] == '=' and isinstance(s_[1], tuple) and s_[1][0] == '[]' and s_[1][2] == n]
+        carried = [s_ for s_ in body if isinstance(s_, tuple) and s_[0] in ('+=', '-=', '*=') and isinstance(s_[1], str) and s_[1] != n]
+        full = v is not None and const_value(v.get('init')) == 0 and deep_unwrap(sx(L['inc'])) in (('u++', n), ('++u', n)) and \
+            (lambda c_: isinstance(c_, tuple) and c_[0] == '<' and c_[1] == n and tosym(c_[2], env) is not None and sp.simplify(tosym(c_[2], env) - count) == 0)(deep_unwrap(sx(L['c'])))
+        if len(stores) == 1 and not carried and full:
+            e2 = dict(env)
+            e2[n] = nn
+            entry = tosym(stores[0][2], e2)
+    idx_s = [s_ for s_ in stmts_sx(fi) if s_[0] == 'return']
+    p = sp.Symbol('p', real=True)
+    ienv = dict(env, point=p, **{'this.cellResolution_': r})
+    ienv.update(cast_targets(fi['body']))
+    index = tosym(idx_s[0][1], ienv) if len(idx_s) == 1 else None
+    if entry is None or index is None:
+        R.undecided('X6', inst, 'table entry / index map not readable as per-axis formulas (entry %s, index %s)' % (entry is not None, index is not None))
+        return
+    bad, n_grids, n_pts = None, 0, 0
+    for (lo, hi, res) in WITNESS_GRIDS:
+        w = {l: sp.Rational(lo), u: sp.Rational(hi), r: sp.Rational(res)}
+        o, N = _num(origin.subs(w)), _num(count.subs(w))
+        if o is None or N is None:
+            R.undecided('X6', inst, 'origin / count not evaluable on the extent [%s, %s] at resolution %s' % (lo, hi, res))
+            return
+        what = 'extent [%s, %s] at resolution %s (N = %s cells)' % (lo, hi, res, N)
+        if not (N.is_Integer and 0 < N < 400):
+            bad = bad or (what, 'the cell count is %s' % N)
+            continue
+        N = int(N)
+        tab = [_num(entry.subs(w).subs(nn, k)) for k in range(N)]
+        if any(t is None for t in tab):
+            R.undecided('X6', inst, 'table entry not evaluable on the %s' % what)
+            return
+        ix = lambda q: _num(index.subs(w).subs(p, q))
+        n_grids += 1
+        for k in range(N - 1):
+            if tab[k + 1] - tab[k] != w[r]:
+                bad = bad or (what, 'centres %d and %d are %s apart, not one resolution' % (k, k + 1, tab[k + 1] - tab[k]))
+        for k in range(N):
+            i_ = ix(tab[k])
+            if i_ != k:
+                bad = bad or (what, 'the centre %s of cell %d maps to index %s' % (tab[k], k, i_))
+        pts = [w[l], w[u]] + [w[l] + (w[u] - w[l]) * sp.Rational(k, 7) for k in range(1, 7)] + [w[u] - w[r] / 3, w[l] + w[r] / 3, w[u] - w[r] * sp.Rational(9, 20)]
+        for q in pts:
+            if not (w[l] <= q <= w[u]):
+                continue
+            n_pts += 1
+            i_ = ix(q)
+            if i_ is None or not (0 <= i_ < N):
+                bad = bad or (what, 'the in-extent point %s gets index %s, outside [0, %d)' % (q, i_, N))
+            elif abs(q - tab[int(i_)]) > w[r] / 2:
+                bad = bad or (what, 'the point %s is %s away from the centre %s of its cell %s (more than half a resolution)' % (q, abs(q - tab[int(i_)]), tab[int(i_)], i_))
+    if bad:
+        R.violated('X6', 'GridIndexMapping:witness-grids', 'on the %s, evaluating the constructor formulas and the index map exactly: %s [%s]' % (bad[0], bad[1], cname), loc, 'E-STEP')
+    else:
+        R.holds('X6', inst, '%d witness extents, %d sample points: centres one resolution apart, centre(n) -> n, in-extent points indexed inside [0, N) within half a resolution of their centre' % (n_grids, n_pts), loc, 'E-STEP')
 
 
 def check_self_pointers(fx, R, cq):
